@@ -39,6 +39,9 @@ pub enum Op {
     Brk(Arg),
     Store(Addr),
     Load(Addr),
+    /// the HOST maps 16 bytes at heap base + 0x2000 while the heap already exists (an area that
+    /// is younger than the heap): from then on the break cannot pass it
+    MapAbove,
 }
 
 #[derive(Clone, Debug, PartialEq, Eq, Hash)]
@@ -172,6 +175,11 @@ impl Spec for C13 {
             v.push(Op::Store(a.clone()));
             v.push(Op::Load(a));
         }
+        if let Some(h) = m.h {
+            if !m.others.iter().any(|(s, _)| *s == h + 0x2000) {
+                v.push(Op::MapAbove);
+            }
+        }
         v
     }
 
@@ -276,6 +284,18 @@ impl Spec for C13 {
                     }
                 }
             }
+            Op::MapAbove => {
+                let h = m.h.unwrap();
+                let at = h + 0x2000;
+                if m.k > at || m.others.iter().any(|(s, l)| overlaps(at, 0x10, *s, *l)) {
+                    return Ok(None); // no room there in this state
+                }
+                match crate::emu::guarded(|| ax.mem_init_zero(at, 0x10).map_err(|e| e.to_string())) {
+                    Ok(Ok(())) => {}
+                    _ => return Ok(None), // creation is C10's subject
+                }
+                m2.others.push((at, 0x10));
+            }
             Op::Store(a) | Op::Load(a) => {
                 let addr = match m.addr(a) {
                     Some(x) => x,
@@ -353,6 +373,7 @@ impl Spec for C13 {
         let k = match op {
             Op::Brk(Arg::Zero) => "brk-query",
             Op::Brk(_) => "brk-move",
+            Op::MapAbove => "map-above",
             Op::Store(_) => "store",
             Op::Load(_) => "load",
         };
